@@ -102,6 +102,9 @@ class ProxyFamily(ScenarioFamily):
                   "timeouts": {"connect": 5.0, "read": 5.0, "write": 5.0, "pool": 5.0}}
             if method != "GET":
                 op["body"] = gen.gen_req_body(r) or {"len": r.randint(1, 500)}
+            if r.random() < 0.15:
+                # the 'target' request extension overrides the URL's target (origin side)
+                op["target"] = f"/t/{tok}/via-target-extension?y={i}".encode()
             ops.append(op)
         scn = {"seed": seed, "exec": self.ex,
                "pool": {"max_connections": r.choice([1, 2, 10]), "proxy": px},
@@ -213,6 +216,9 @@ def proxy_oracle(res, scn):
                 w.violate("C11", "forwarded-request-without-token", {"target": target})
                 return
             url = call["op"]["url"].encode()
+            if call["op"].get("target") is not None:
+                scheme_, rest_ = call["op"]["url"].split("://", 1)
+                url = (scheme_ + "://" + rest_.split("/", 1)[0]).encode() + bytes(call["op"]["target"])
             if target != url:
                 w.violate("C11", "forward-target-not-the-absolute-url%s" % (
                     ":ipv6-literal" if b"[" in url else ""), {"target": target, "want": url})
